@@ -454,7 +454,8 @@ func (r *Runtime) arrayproto_splice(call FunctionCall) Value {
 		panic(r.NewTypeError("Invalid array length"))
 	}
 	a := arraySpeciesCreate(o, actualDeleteCount)
-	if src := r.checkStdArrayObj(o); src != nil && int64(len(src.values)) == length && src.extensible && src.lengthProp.writable {
+	if src := r.checkStdArrayObj(o); src != nil && int64(len(src.values)) == length && src.extensible && src.lengthProp.writable &&
+		(itemCount <= actualDeleteCount || r.checkStdArrayObjWithProto(o) != nil) {
 		if dst := r.checkStdArrayObjWithProto(a); dst != nil {
 			values := make([]Value, actualDeleteCount)
 			copy(values, src.values[actualStart:])
